@@ -363,14 +363,16 @@ theorem IdsInv_step (s s' : Sys) (l : Label) (h : IdsInv s) (hs : step? s l = so
           have hlt := client_lt s h oid (by rw [hc]; nofun)
           split at hs
           · rename_i w hf
-            cases hs
-            refine IdsInv_complete _ _ _ _ (IdsInv_of_eq (IdsInv_erase s w h) rfl rfl ?_ rfl rfl rfl) hlt
-            simp only
-            split <;> simp [wkeys_grantFirst]
+            split at hs
+            · cases hs
+            · cases hs
+              exact IdsInv_complete _ _ _ _ (IdsInv_erase s w h) hlt
           · cases hs
         · rename_i hc
-          cases hs
-          exact IdsInv_complete _ _ _ _ h (client_lt s h oid (by rw [hc]; nofun))
+          split at hs
+          · cases hs
+          · cases hs
+            exact IdsInv_complete _ _ _ _ h (client_lt s h oid (by rw [hc]; nofun))
         · cases hs
     · cases hs
   | recvReply oid =>
